@@ -329,7 +329,7 @@ pub fn cover_inputs(quick: bool, html_only: bool) -> Vec<(Vec<u8>, usize, usize)
             if !seen.insert(key) { continue; }
         }
         for (wi, w) in COVER_WORDS.iter().enumerate() {
-            let suffixes: &[&[u8]] = if quick { if wi % 6 == 0 { &[COVER_PROBE, b""] } else { &[COVER_PROBE] } } else { &[COVER_PROBE, b""] };
+            let suffixes: &[&[u8]] = if wi % 6 == 0 || (!quick && wi % 2 == 0) { &[COVER_PROBE, b""] } else { &[COVER_PROBE] };
             for sfx in suffixes {
                 let mut v = p.clone(); v.extend_from_slice(w); v.extend_from_slice(sfx);
                 if html_only { let low = v.to_ascii_lowercase(); if low.windows(4).any(|x| x == b"<svg") { continue; } }
